@@ -1,5 +1,6 @@
 """Utilities for working with strings of HTML."""
 
+import re
 from html.parser import HTMLParser
 
 # ruff: noqa: D102
@@ -46,11 +47,21 @@ class StripParser(HTMLParser):
         return "".join(self.dat)
 
 
+RE_TAGS = re.compile(
+    r"<script.*?</script>|<!--.*?-->|<style.*?</style>|<.*?>", re.DOTALL
+)
+
+
 def strip_tags(value: str) -> str:
     """Return the given value with all HTML tags removed."""
     if "<" in value and ">" in value:
         parser = StripParser()
-        parser.feed(value)
-        parser.close()
+        try:
+            parser.feed(value)
+            parser.close()
+        except AssertionError:
+            # The parser gives up on some malformed declarations, `<![x[y]]>` for
+            # example. Fall back to removing anything that looks like a tag.
+            return RE_TAGS.sub("", value)
         return parser.get_data()
     return value
